@@ -30,6 +30,14 @@ CLAIMED = {
     text="Decides the gating structure on all paths: (R1) every lower-layer call and every reply in layer_2::reply lies behind the true edge of get_authorized_eth_addr(mac, self_ip_list).contains(request destination MAC); (R1b) that set is built from exactly broadcast, own MAC, 33:33:00:00:00:01 and per configured address 01:00:5e+low 23 bits / 33:33:ff+low 24 bits (array element provenance); (R2) the three dispatch switches handle exactly {0x0806,0x0800,0x86dd}, {1,6,17}, {58,6,17}, their default edges reach no handler and no reply, and each handler sits on its own arm; (R3) before any L4 handler and any reply the deny list is absent or tested negative on the request source; (R4) every address that becomes a reply source or an advertised ARP/ND address passed a membership test, decided by a path-sensitive simulation that remembers test outcomes on value-numbered expressions (so the ICMPv6 exemption is not blamed on TCP/UDP paths); (R5) ARP/ND target gates and the interprocedural summary for the ND target handed to L3.",
     note="pnet getter semantics trusted. The contents of the configured sets are runtime values; only the tests applied to them are decided.",
     technique="must-pass-through gates + path-sensitive property simulation with value-numbered predicates on MIR", ref="§4 C02"),
+ 'C06': dict(
+    text="(R1) the flag dispatch of tcp::repl is evaluated exhaustively for all 512 values of the 9 flag bits (partial evaluation of the pure guard region in MIR) and compared row by row with the reference policy of the statement; (R2) on the SYN-ACK arm flags=0x12 is the last write, ack = wrapping_add(seq,1), seq = generate(client_info, synack_key), header-only buffer; (R3) generate() reads exactly ip.src, ip.dst, port.src, port.dst and key[0], key[1], feeds each to the SipHash state on every path to Ok, returns the low 32 bits of finish(), and reaches no static, clock or RNG - hence identical for a retransmitted SYN and independent of history; (R4) the SYN arm touches neither the connection table nor the payload. Covers all seq values (wrapping_add), all ports, both IP versions.",
+    note="The 2^-32 change-on-input-change clause is a property of SipHash (trusted). pnet bit layout of get_flags/set_flags trusted.",
+    technique="exhaustive decision-table extraction (512 rows) + provenance + purity/callee-set check on MIR", ref="§4 C06"),
+ 'C07': dict(
+    text="(R3) all 512 flag values are evaluated against the reference policy: PSH|ACK supersets select the data arm, exactly FIN|ACK the FIN|ACK reply, bare ACK/RST and the rest drop arms from which no reply construction is reachable; (R1) on the data arm add_tcb lies behind cookie == ack-1 (mod 2^32, either wrapping_sub or the guarded underflow form) and the application layer behind (already validated | cookie == ack-1), with cookie = generate(client_info,key) of this frame recorded in ClientInfo and used as the table key; from the mismatch edge neither a reply nor a table access is reachable; (R2) reply fields by provenance: ack = wrapping_add(seq, payload().len() as u32), seq = request ack, ACK|PSH only under the Some edge of the application result with the payload appended after the 20-byte header, bare ACK under None; FIN|ACK arm ack = wrapping_add(seq,1), seq = request ack, flags 0x11, stateless; (R4) no remove/clear on the table. Quantifies over all seq/ack values (wrapping ops), payload lengths and histories.",
+    note="The reference connection model of the statement is matched clause by clause, not executed. Collisions of the 32-bit cookie are not decided.",
+    technique="decision-table extraction + must-pass-through gates + provenance of reply fields on MIR", ref="§4 C07"),
 }
 
 NOT_YET = {}
